@@ -220,6 +220,23 @@ def run_real(ws, schema, rec, item, loader_factory=None):
     return {"r": "ok", "tree": tree}, (cfg, handler)
 
 
+def run_real_again(ws, schema, rec, item, loader):
+    """The scenario once more through an existing loader object (its files are already in place)."""
+    base = ws.materialise(item["files"])
+    main = os.path.join(base, item["main"])
+    try:
+        cfg, handler = loader.loadURL(main)
+    except Exception as e:
+        o = project.exc_outcome(e)
+        o["res"] = url_to_name(o.get("url"), base)
+        return o
+    try:
+        tree = project.proj_section(cfg, rec, top=True)
+    except Exception as e:
+        tree = {"unprojectable": "%s: %s" % (type(e).__name__, e)}
+    return {"r": "ok", "tree": tree}
+
+
 # -- parallel replay ---------------------------------------------------------------------
 _CTX = {}
 
